@@ -323,7 +323,9 @@ class SInt:
     def __mod__(self, m):
         if isinstance(m, (int, _np.integer)) and m > 0 and m & (m - 1) == 0:
             return SInt(self.bits[: int(m).bit_length() - 1]).n()
-        raise OutOfReach("mod by non power of two")
+        if isinstance(m, (int, _np.integer)) and m > 0:
+            return SLin.lift(self) % int(m)  # word-level arithmetic term
+        raise OutOfReach("mod by symbolic or non-positive value")
 
     def __floordiv__(self, m):
         if isinstance(m, (int, _np.integer)) and m > 0 and m & (m - 1) == 0:
@@ -789,7 +791,7 @@ class SBits:
 
     def to01(self):
         if any(isinstance(x, SBit) for x in self.b):
-            raise OutOfReach("to01 of symbolic bits")
+            raise OutOfReach("to01 of symbolic bits")  # (a string that could be used as a dictionary key: not a token)
         return "".join(str(x) for x in self.b)
 
     def conc(self):
@@ -878,8 +880,10 @@ class SBytes:
     def __deepcopy__(self, memo):
         return self
 
-    def hex(self):
-        raise OutOfReach("hex of symbolic bytes")
+    def hex(self, *a):
+        # formatting of symbolic contents only ever feeds log lines / exception messages in the code under contract:
+        # a placeholder token (DESIGN 2.1 "Formatting"); anything that tried to parse it back would raise ValueError
+        return "<symbolic-bytes>"
 
     def decode(self, *a, **k):
         raise OutOfReach("decode of symbolic bytes")
